@@ -46,7 +46,13 @@ const (
 	exResolveTwice     // only with ExclusiveWork
 	exBlockNoResolve   // only with ExclusiveWork
 	exResolveConcurrent // only with ExclusiveWork: resolve called by three goroutines at once (first answer wins)
+	exResolveErrThenBlock // only with ExclusiveWork: resolves with an ERROR result (carrying the value) and keeps running
 )
+
+// valErr is an error result that carries the call's value, so that the log and the model treat it like any other outcome
+type valErr int
+
+func (e valErr) Error() string { return fmt.Sprintf("valErr %d", int(e)) }
 
 func execExclusiveT3(t *trace, script []string) {
 	for _, line := range script {
@@ -76,7 +82,7 @@ func execExclusiveT3(t *trace, script []string) {
 				}
 			}
 			if c.style >= exStyleOpts {
-				c.behave = r.Pick(3, 3, 4, 2, 1, 1, 2)
+				c.behave = r.Pick(3, 3, 4, 2, 1, 1, 2, 3)
 			} else {
 				c.behave = r.Pick(3, 2)
 			}
@@ -203,6 +209,11 @@ func execExclusiveT3(t *trace, script []string) {
 					res(c.val + 1000)
 				case exBlockNoResolve:
 					<-c.gate
+				case exResolveErrThenBlock:
+					// a failed attempt that still has cleanup to do: the key stays taken until the function RETURNS
+					log.Add("fnresolve %d r=%d", by, c.val)
+					resolve(nil, valErr(c.val))
+					<-c.gate
 				case exResolveConcurrent:
 					// a hedged work function: several goroutines race to resolve (with the same value); exactly one may count
 					log.Add("fnresolve %d r=%d", by, c.val)
@@ -245,6 +256,8 @@ func execExclusiveT3(t *trace, script []string) {
 			switch {
 			case err != nil && err.Error() == "bigbuff.Exclusive resolve not called" && v == nil:
 				log.Add("outcome %d r=0", i)
+			case err != nil && v == nil && func() bool { _, ok := err.(valErr); return ok }():
+				log.Add("outcome %d r=%d", i, int(err.(valErr)))
 			case err == nil:
 				if n, ok := v.(int); ok {
 					log.Add("outcome %d r=%d", i, n)
